@@ -1375,6 +1375,7 @@ func (t *fnTrans) spawn(in *ssa.Go) {
 		for _, x := range mc.Bindings {
 			bnd = append(bnd, t.val(x))
 		}
+		t.captureStability(mc, in)
 	} else if v := t.val(c.Value); v.Fn != nil && fn == nil {
 		fn = v.Fn
 		bnd = v.Bnd
@@ -1422,6 +1423,62 @@ func (t *fnTrans) spawn(in *ssa.Go) {
 		t.goRequires(fn, fc, env, in.Pos())
 	}
 	t.applyGhostSets(fc.OnSpawn, env)
+}
+
+// captureStability: a function literal started with `go` reads the variables it captures when IT runs, not when the `go` statement ran. Its
+// contract speaks about the captured values at its own start (`old(clientConn)`), so the spawner must not assign a captured variable after the
+// `go` statement - unless the assignment is to a fresh variable (the path from the `go` statement to the assignment re-executes the variable's
+// declaration, as `conn, err := l.Accept()` inside a loop does). An assignment that is reachable without passing the declaration (the variable
+// was hoisted out of the loop: every goroutine shares ONE cell) fails the obligation `safety[capture.<var>]`.
+func (t *fnTrans) captureStability(mc *ssa.MakeClosure, goInstr ssa.Instruction) {
+	if t.fc == nil || os.Getenv("NSQVC_NO_CAPTURE") != "" {
+		return
+	}
+	for _, bv := range mc.Bindings {
+		cell, ok := bv.(*ssa.Alloc)
+		if !ok || cell.Parent() != t.fn {
+			continue
+		}
+		seen := map[int]bool{}
+		found := false
+		var scan func(b *ssa.BasicBlock, from int)
+		scan = func(b *ssa.BasicBlock, from int) {
+			for i := from; i < len(b.Instrs); i++ {
+				in := b.Instrs[i]
+				if in == ssa.Instruction(cell) {
+					return // a fresh variable from here on
+				}
+				if call, ok := in.(*ssa.Call); ok && calleeKey(&call.Call) == "(*sync.WaitGroup).Wait" {
+					return // the goroutines started before are joined here
+				}
+				if st, ok := in.(*ssa.Store); ok && st.Addr == ssa.Value(cell) {
+					found = true
+					return
+				}
+			}
+			for _, s := range b.Succs {
+				if !seen[s.Index] {
+					seen[s.Index] = true
+					scan(s, 0)
+				}
+			}
+		}
+		gb := goInstr.Block()
+		start := 0
+		for i, in := range gb.Instrs {
+			if in == goInstr {
+				start = i + 1
+			}
+		}
+		scan(gb, start)
+		if found {
+			name := cell.Comment
+			if name == "" {
+				name = cell.Name()
+			}
+			t.oblige("safety", "capture."+name, "the variable "+name+" captured by the goroutine started here is assigned again by the spawner without being re-declared (the goroutine may see the later value)", "false", goInstr.Pos())
+		}
+	}
 }
 
 // goRequires: the body of a goroutine is verified under its `requires`: they are obligations where it is started (in the state of the
